@@ -121,6 +121,8 @@ mod jobserver;
 pub mod logs;
 mod paths;
 mod state;
+#[cfg(feature = "verif-hooks")]
+pub mod verif;
 
 pub use deps::{is_dirty, Dirtiness, DirtyCallbacks, DirtyCallbacksBuilder};
 pub use env::*;
@@ -133,3 +135,5 @@ pub use state::{
     always_filename, logname, relpath, DepMode, File, Files, Lock, LockType, ProcessState,
     ProcessTransaction, Stamp, LOG_LOCK_MAGIC,
 };
+#[cfg(feature = "verif-hooks")]
+pub use state::verif_realdirpath;
